@@ -106,6 +106,7 @@ func NewRebalancer(handler BalancerHandler, opts ...RebalancerOption) (*Rebalanc
 	if rb.errHandler == nil {
 		rb.errHandler = utils.DefaultHandler
 	}
+	verifEmit("rb.new", rb, int64(rb.backoffDuration))
 	return rb, nil
 }
 
